@@ -9,7 +9,7 @@ CHECKS = {
         technique="bounded model checking with Kani/CBMC (SAT) of the step functions from an arbitrary counter state, plus SMT (z3/cvc5) over a symbolic execution of the real MIR of the async entry points validate_sequence, batch_update, cleanup_old_sequences, sync_counters and new_with_sync_interval/load_counters (state machines polled in place) over an arbitrary counter map",
         category="proof",
         text="Bounded proof: (Kani) for every counter state satisfying the representation invariant (history length in the stated set), every submission and clock value, the verdict is sound and complete (Valid iff next in order and in window), apply preserves the invariant and the accepted number and everything below it is never Valid again; (engine M) the whole async validate_sequence / batch_update apply exactly the Valid submissions to exactly the addressed peer's counter from an ARBITRARY map (so a number duplicated inside a batch is accepted once, other peers unaffected), cleanup never forgets a peer's high-water mark, and a store reloaded after a sync (sync_counters, then the constructor's load_counters; file system and postcard as environment: a write stores the image or fails, (de)serialisation is the identity) holds exactly the persisted counter of every peer, so a persisted number is never re-accepted. Induction over histories by the invariant. Counterexamples are replayed natively (pinned clock) before being reported.",
-        note="Trusts Kani/CBMC, the solvers, the summaries (HashMap as SMT arrays, uncontended locks, clock) and single-task execution; true concurrency between tasks, the serde/postcard encoding itself (summarised as the identity on the counter map), the timing of the background sync task and L>=2^64-2 are outside.",
+        note="Trusts Kani/CBMC, the solvers, the summaries (HashMap as SMT arrays, uncontended locks, clock) and single-task execution; true concurrency between tasks beyond the structural obligation 'validate-and-apply happens under ONE acquisition of the counters lock' (a satisfiable query is confirmed by a native eight-task stress run before it is reported), the serde/postcard encoding itself (summarised as the identity on the counter map), the timing of the background sync task and L>=2^64-2 are outside.",
         design_ref="4/C12, 8.5",
     ),
 }
